@@ -78,7 +78,7 @@ func TestNodeCookies(t *testing.T) {
 // ---------------------------------------------------------------- spawn / application start permissions
 
 var recPerm = kit.NewRecorder("C15", "permissions",
-	"a target node T (generated network flags) and three peers (generated env exposure): a stateful history of 4-20 steps from {EnableSpawn / DisableSpawn / EnableApplicationStart / DisableApplicationStart with 0-2 peer names on 2 process names and 2 applications, a peer issues Spawn / SpawnRegister / ApplicationStart(Temporary|Transient|Permanent)}; "+
+	"a target node T (generated network flags, configured node-wide, on its acceptor, or both) and three peers (generated env exposure): a stateful history of 4-20 steps from {EnableSpawn / DisableSpawn / EnableApplicationStart / DisableApplicationStart with 0-2 peer names on 2 process names and 2 applications, a peer issues Spawn / SpawnRegister / ApplicationStart(Temporary|Transient|Permanent)}; "+
 		"oracle (security direction): a request succeeds only if some Enable covering (name, peer) is not followed by a Disable covering it, the name is known, and T's flags allow that kind of request; (functional direction, plain cases) a request covered by an Enable with no Disable ever issued for that name succeeds when the flags allow; the spawned process's environment contains the requester's variable iff the requester switched env exposure on; "+
 		"non-trivial = a request issued for a (name, peer) that was enabled and later disabled; distinct by history")
 
@@ -94,6 +94,7 @@ func propPermissions(t *rapid.T) {
 	flags := gen.NetworkFlags{Enable: true, EnableImportantDelivery: true,
 		EnableRemoteSpawn:            rapid.IntRange(0, 4).Draw(t, "flag_spawn") != 0,
 		EnableRemoteApplicationStart: rapid.IntRange(0, 4).Draw(t, "flag_appstart") != 0}
+	flagsWhere := rapid.IntRange(0, 2).Draw(t, "flags_configured_where")
 	probe := kit.NewProbe()
 	var emu sync.Mutex
 	envSeen := map[gen.PID]map[gen.Env]any{}
@@ -110,7 +111,7 @@ func propPermissions(t *rapid.T) {
 	for i := 0; i < 2; i++ {
 		i := i
 		apps = append(apps, &kit.App{Label: fmt.Sprintf("app%d", i), Probe: probe, Spec: gen.ApplicationSpec{
-			Name:  gen.Atom(fmt.Sprintf("permapp%d", i)),
+			Name: gen.Atom(fmt.Sprintf("permapp%d", i)),
 			Group: []gen.ApplicationMemberSpec{{Name: gen.Atom(fmt.Sprintf("permapp%dm", i)), Factory: kit.Factory(&kit.ActorConfig{Label: "member", Probe: probe, Quiet: true,
 				OnInit: func(a *kit.Actor, args ...any) error {
 					emu.Lock()
@@ -122,8 +123,18 @@ func propPermissions(t *rapid.T) {
 		}})
 	}
 	target, err := netkit.StartNetNode(hub, netkit.NetNodeName("c15t"), "perm", func(o *gen.NodeOptions) {
-		o.Network.Flags = flags
-		o.Network.Acceptors[0].Flags = flags
+		// the same effective flags, configured in one of three places: node-wide and on the
+		// acceptor, node-wide only (a listed acceptor without flags of its own inherits them),
+		// on the acceptor only (node-wide defaults, which allow everything, must not win)
+		switch flagsWhere {
+		case 0:
+			o.Network.Flags = flags
+			o.Network.Acceptors[0].Flags = flags
+		case 1:
+			o.Network.Flags = flags
+		case 2:
+			o.Network.Acceptors[0].Flags = flags
+		}
 	})
 	if err != nil {
 		t.Fatalf("target: %v", err)
@@ -155,9 +166,12 @@ func propPermissions(t *rapid.T) {
 	names := []gen.Atom{"permproc0", "permproc1"}
 	n := rapid.IntRange(4, 20).Draw(t, "steps")
 	// model: index of the last covering enable / disable per (kind, name, peer); -1 = never
-	type key struct{ app bool; name, peer int }
+	type key struct {
+		app        bool
+		name, peer int
+	}
 	lastEnable, lastDisable := map[key]int{}, map[key]int{}
-	everDisabled := map[[2]int]bool{} // (kind,name)
+	everDisabled := map[[2]int]bool{}  // (kind,name)
 	lastEnableStep := map[[2]int]int{} // (kind,name) -> step of the most recent Enable of that name
 	for k := 0; k < 2; k++ {
 		for nm := 0; nm < 2; nm++ {
@@ -289,7 +303,7 @@ func propPermissions(t *rapid.T) {
 			}
 		}
 	}
-	recPerm.Case(nontriv, strings.Join(hist, ";"), fmt.Sprintf("flags=%v/%v", flags.EnableRemoteSpawn, flags.EnableRemoteApplicationStart))
+	recPerm.Case(nontriv, fmt.Sprintf("where=%d ", flagsWhere)+strings.Join(hist, ";"), fmt.Sprintf("flags=%v/%v", flags.EnableRemoteSpawn, flags.EnableRemoteApplicationStart), fmt.Sprintf("flags-where=%d", flagsWhere))
 }
 
 func b2i(b bool) int {
